@@ -29,7 +29,7 @@ ALLOW_BV = True
 RULE = ("the 256 one-octet checksums from state 0 (the whole table) on every run; (state, octet) sweeps over ranges of 256 states x all "
         "256 octets compared by a rolling hash (16 random ranges quick, all 256 ranges = all 2^24 pairs thorough); all one- and two-octet "
         "buffers from sampled states; random buffers up to 4 KiB from random start values, split at random/every position; word buffers "
-        "of length 0..64.  Three-way: C code vs. table-driven model (table regenerated from the source) vs. bitwise spec.  Non-trivial = "
+        "of every length 0..64 and of lengths around the powers of two up to 2048 words.  Three-way: C code vs. table-driven model (table regenerated from the source) vs. bitwise spec.  Non-trivial = "
         "non-empty buffer; distinct = distinct operation text.")
 EXHAUSTIVE = {"quick": False, "thorough": True}
 ASSUMPTIONS = [
@@ -114,7 +114,10 @@ def cases(tier, seed):
     for i in range(0, len(ops), 100):
         cs.append(Case("sparse-%d" % i, ops[i:i + 100], ("buffer", "sparse")))
     # word buffers
-    for n in range(0, 65):
+    # every length 0..64, and - as for the octet buffers - lengths around the next powers of two up to 4 KiB of image
+    # (an implementation that works through the words in portions has its seams there, not below 64)
+    longer = [65, 66, 96, 127, 128, 129, 191, 192, 193, 255, 256, 257, 511, 512, 513, 1000, 2048] + [rnd.randint(65, 2048) for _ in range(6)]
+    for n in list(range(0, 65)) + longer:
         img = rhex(rnd, 2 * n)
         init = rnd.choice([0, 0xffff, rnd.getrandbits(16)])
         cs.append(Case("u16-%d" % n, ["crc.u16 %04x %s" % (init, img), "crc.buf %04x %s" % (init, img)], ("words",)))
